@@ -251,6 +251,21 @@ def run(ctx):
                     nxf.loc(nxf.line), detail=str(sorted(rows)), fail="DirTourist::next no longer visits every queued directory before reporting Done: %s" % sorted(rows))
     except Skip:
         pass
+    # the walk starts from exactly what it was given: the whole watch list (an empty set means "no watches were given" in visit_path,
+    # so it must not become empty by filtering), an empty skip list
+    try:
+        dn0 = body_of(ctx, "R14.2", D + "::DirTourist::new")
+        lit = [n for n in thir.find(thir.root(dn0), "adt") if n.get("adt", "").endswith("DirTourist")]
+        fl = {k: pathx.desc(v) for k, v in lit[0]["f"]} if len(lit) == 1 else {}
+        import re as _re2
+        w = fl.get("to_explicitly_watch", "")
+        pure = bool(_re2.fullmatch(r"(?:(?:Iterator::collect|Iterator::cloned|Iterator::copied|slice::iter|IntoIterator::into_iter|slice::to_vec|Clone::clone|ToOwned::to_owned|HashSet::from_iter|FromIterator::from_iter)\()+watch_files\)+", w))
+        ctx.require(pure, "R14.2", "watch-set-is-argument", "the walk's explicit-watch set is the given watch list, unfiltered", dn0.loc(dn0.line), detail=w,
+                    fail="DirTourist::new derives the explicit-watch set through %s: if that leaves it empty, visit_path reads `no watches given` and searches every directory" % w)
+        ctx.require(fl.get("to_skip") == "HashSet::new()" and fl.get("base") == "base" and fl.get("filter") == "filter", "R14.2", "walk-initial-state",
+                    "the walk starts with an empty skip list, the canonical base and the prepared filter", dn0.loc(dn0.line), detail=str({k: fl.get(k) for k in ("to_skip", "base", "filter")}))
+    except Skip:
+        pass
     # check_dir's own verdict table (shared with C03 R03.4): pruning is only as good as what check_dir answers
     from . import c03 as _c03
     _c03.consumers(ctx, "R14.2", only="check_dir")
